@@ -47,6 +47,7 @@ PLAN = {
     "C34": [SLEEP, CONNECT],
 }
 CLIENT_HALF = ("C06", "C23")     # properties that also speak about the client library
+REPLAY_MAX = int(os.environ.get("VERIF_REPLAY_MAX", "120000"))   # thorough: most transitions of one configuration replayed
 QUICK_SAMPLE = int(os.environ.get("VERIF_QUICK_SAMPLE", "2500"))     # schedules per MC configuration executed in the quick tier
 SHAPE_CAP = int(os.environ.get("VERIF_SHAPE_CAP", "9000"))           # ... raised to one per schedule shape, up to this many
 
@@ -104,6 +105,19 @@ def run_mc(c, tier, emit=True):
         r2["generated"] += r1["generated"]
         return r2, s1 + s2
     depth = c["depth"][0 if tier == "quick" else 1]
+    if tier == "thorough" and emit and c["depth"][1] > c["depth"][0]:
+        # The state graph at the thorough depth can have a million transitions (sleep/timed family): first the
+        # design check alone at that depth; every transition is replayed only if there are at most REPLAY_MAX of
+        # them, otherwise the replay covers every transition at the quick depth (run() adds simulation walks).
+        deep = vlib.tlc("MC_GatewaySession", "mc.cfg", files={"mc.cfg": mc_cfg(c, depth, False)},
+                        workers=min(12, vlib.NCPU), timeout=1800)
+        if "is violated" in deep["out"] or not vlib.tlc_ok(deep):
+            raise vlib.Inconclusive("design check of the reference model failed at depth %d:\n%s" % (depth, deep["out"][-3000:]))
+        if deep["generated"] > REPLAY_MAX:
+            r, s = run_mc(dict(c, depth=(c["depth"][0], c["depth"][0])), "thorough", emit)
+            r["distinct"], r["generated"] = deep["distinct"], deep["generated"]
+            r["replay_depth"] = c["depth"][0]
+            return r, s
     res = vlib.tlc("MC_GatewaySession", "mc.cfg", files={"mc.cfg": mc_cfg(c, depth, emit)},
                    workers=min(8, vlib.NCPU), timeout=1800 if tier == "thorough" else 900)
     if "is violated" in res["out"] or "Error:" in res["out"] and not vlib.tlc_ok(res):
@@ -324,6 +338,13 @@ def run(prop, tier, replay=None):
             mc_info.append(dict(config=c["family"] + ":" + "+".join(c["groups"]), distinct=res["distinct"],
                                 generated=res["generated"], schedules=total, executed=len(scheds)))
             scenarios += to_scenarios(scheds, "%s-mc%d" % (prop, k))
+        if tier == "thorough":
+            # seeded random walks well beyond the exhaustive depth
+            for k, c in enumerate(PLAN[prop]):
+                walks = run_walks(150, c["depth"][1] + 6, family=c["family"], groups=c["groups"], auth=tuple(c["auth"]),
+                                  msgids=tuple(c["msgids"]))
+                mc_info.append(dict(config="walks:" + c["family"] + ":" + "+".join(c["groups"]), schedules=len(walks), executed=len(walks)))
+                scenarios += to_scenarios(walks, "%s-walk%d" % (prop, k))
         scenarios += gw_scenarios.for_property(prop, tier, rnd)
     lines, crashes = execute(scenarios, binary)
     viol, stat, cover, traces = judge(lines, [prop])
